@@ -35,7 +35,7 @@ class Gen:
     def body(self, depth, in_reusable=False):
         rng = self.rng; out = []
         for _ in range(rng.range(1, 4)):
-            k = rng.below(14)
+            k = rng.below(15)
             if k < 4 or depth <= 0:
                 out.append(self.probe())
             elif k < 7:
@@ -63,8 +63,10 @@ class Gen:
                 out.append(('if', rng.choice([0, 1, 1]), self.body(depth - 1)))
             elif k < 13:
                 out.append(('for', [str(rng.range(1, 99)) for _ in range(rng.range(1, 2))], rng.choice(NAMES), self.body(depth - 1)))
-            else:
+            elif k < 14:
                 out.append(('slot', self.slots)); self.slots += 1
+            else:       # an element without content still opens and closes its scope: <g k="v"/>
+                out.append(('gempty', [(n_, self.word()) for n_ in rng.sample(NAMES, rng.range(1, 2))]))
         return out
 
 
@@ -79,6 +81,8 @@ def render(ast, fwd_slot, y=[0]):
             out.append('<var %s/>' % ' '.join('%s="%s"' % (k, v[1] if v[0] == 'lit' else '$' + v[1]) for k, v in n[1]))
         elif t == 'g':
             out.append('<g%s>%s</g>' % (''.join(' %s="%s"' % kv for kv in n[1]), render(n[2], fwd_slot, y)))
+        elif t == 'gempty':
+            out.append('<g%s/>' % ''.join(' %s="%s"' % kv for kv in n[1]))
         elif t == 'reuse':
             y[0] += 3
             posn = 'xy="#late|h %d"' % y[0] if (n[2] and fwd_slot is not None) else 'y="%d"' % y[0]
